@@ -55,7 +55,7 @@ impl Run {
         let sc = self.sc.clone();
         let u = sc.users.clone();
         let nu = sc.native_users.clone();
-        let big = 1_000_000u128.max(sc.cfg.min_stake * 10);
+        let big = 1_000_000u128.max(sc.cfg.min_stake.min(1_000_000_000_000_000_000_000_000) * 10);
         self.step(sc.resume(0, 0, 0));
         for x in &u {
             self.step(Op::BankMint { addr: x.clone(), denom: sc.s.clone(), amount: big * 100 });
@@ -260,7 +260,15 @@ pub fn replay(v: &Value) -> Result<Vec<Viol>, String> {
     let props: Vec<String> = serde_json::from_value(v.get("props").cloned().ok_or("no props")?).map_err(|e| e.to_string())?;
     let props: Vec<&'static str> = props.iter().map(|p| crate::intern(p)).collect();
     let trace: Vec<Op> = serde_json::from_value(v.get("trace").cloned().ok_or("no trace")?).map_err(|e| e.to_string())?;
-    let mut run = Run::new(&cfg, &props).map_err(|r| format!("instantiate failed: {}", r.err))?;
+    let mut run = match Run::new(&cfg, &props) {
+        Ok(r) => r,
+        Err(r) => {
+            if !r.panics.is_empty() {
+                return Ok(r.panics.iter().map(|p| Viol { prop: "C16", what: format!("panic in {p} during instantiate") }).collect());
+            }
+            return Ok(vec![]);
+        }
+    };
     for op in trace {
         run.step(op);
     }
